@@ -166,7 +166,7 @@ SrcOfTerm(prog, k, t) == IF t.k = "num" THEN "lit" ELSE IF t.k # "sym" THEN "non
                               (IF prog[d].mn = "EQU" THEN "equ" ELSE "label") \o (IF d < k THEN "-before" ELSE IF d = k THEN "-self" ELSE "-after")
 ValSrc(prog, k) == LET e == prog[k].expr IN
                    IF e.op = "" THEN SrcOfTerm(prog, k, e.l) ELSE "expr(" \o SrcOfTerm(prog, k, e.l) \o e.op \o SrcOfTerm(prog, k, e.r) \o ")"
-SpOf(e) == IF e.l.k = "num" THEN e.l.sp ELSE IF e.op # "" /\ e.r.k = "num" THEN e.r.sp ELSE ""
+SpOf(e) == IF e.op = "" THEN e.l.sp ELSE e.l.sp \o "," \o e.r.sp
 ClassOf(prog, env, k) ==
   LET s == prog[k]
       e == Eval(env, s.expr)
